@@ -6,6 +6,9 @@ mod gen {
     pub mod labels;
     pub mod voice;
 }
+mod explore {
+    pub mod sched;
+}
 mod oracle {
     pub mod dense;
     pub mod dsp;
